@@ -30,7 +30,7 @@ LEVEL_NOTE = ("trusts the independent encoder pvf.ref.swbytes; field-level decod
               "identify an entry are compared; TCP segmentation is C02's subject, each message is delivered by one read()")
 RULE = ("a case is either (features reply with 0..4 ports, k notifications delivered before the handshake barrier reply, then "
         "<= 12 port-status / features messages) or (<= 3 statistics requests, each a list of parts, and a stream that merges "
-        "the parts with other messages); non-trivial when a deleted port is re-added, a port is renamed or changes hardware "
+        "the parts with other messages), each optionally with listeners that halt events on the nexus / the connection; non-trivial when a deleted port is re-added, a port is renamed or changes hardware "
         "address, or a reply has >= 3 parts; distinct by SHA-1 of the canonical JSON of the case")
 ASSUMPTIONS = [
   "OFPPR_ADD and OFPPR_MODIFY both carry the complete new description of the port and set view[port_no]; OFPPR_DELETE of an unknown port is a no-op",
@@ -38,6 +38,7 @@ ASSUMPTIONS = [
   "a failed [] lookup raises a LookupError (POX: IndexError), `in` is False, get() returns the default",
   "a request's reply is 'contiguous' when no other statistics reply arrives between its parts (other message types may); only such requests must produce exactly one aggregated event; for interleaved ones only at-most-once, never-merged, never-before-the-final-part and in-order are required (of_01 documents that interleaving is unsupported)",
   "a request whose final part never arrives must not produce an aggregated event",
+  "listeners may halt RawStatsReply, the aggregated events, PortStatus and FeaturesReceived (return EventHalt / True, or set event.halt) on the nexus or on the connection; the only documented effect is that an event halted on the nexus is not raised on the connection, so the connection level may then omit exactly that event; aggregation, the nexus-level events and the port view must not depend on listeners",
   "a later request may reuse the xid (and type) of an earlier one once that one is complete; their entries must not be merged either",
   "error messages used as interleaved traffic carry no data (an error with data hit the separate, now fixed, hexdump defect recorded under C09)",
 ]
@@ -45,7 +46,9 @@ EXHAUSTIVE_SCOPE = {
   "quick": ("ports: every sequence of <= 3 notifications from a 12-letter alphabet (2 ports x {add, add renamed, modify, "
             "modify renamed, modify hw address, delete}) from each of the 4 initial subsets of {1,2}; stats: all 792 weak "
             "compositions of 6 entries into <= 6 parts x {flow, table, port, queue}; all 32 compositions x 4 types x 4 kinds "
-            "of second reply x every gap x with/without other messages in every gap"),
+            "of second reply x every gap x with/without other messages in every gap; every subset of the 4 raw events of a 4-part "
+            "reply halted on the nexus or on the connection x aggregated event halted nowhere/nexus/connection x 3 ways of halting; "
+            "all 2-notification sequences with PortStatus/FeaturesReceived listeners halting on nexus or connection"),
   "thorough": "as quick with notification sequences <= 4 from every initial subset and <= 5 from the full set",
 }
 
@@ -137,6 +140,39 @@ class _Con(object):
   def next_xid(self):
     self.xid += 1
     return self.xid
+
+
+# =========================================================================== listeners that halt events
+
+class _Halter(object):
+  """Decides, per (level, event class), whether the k-th event is halted by the recording listener, and how.
+  spec: {"nexus:raw": [0/1, ...], "con:agg": [...], ..., "style": 0|1|2}; the k-th event of a class uses
+  list[k % len]; a missing or empty list never halts.  style 0: return EventHalt, 1: set event.halt and
+  return None, 2: return True (all three are documented ways to stop an event)."""
+
+  def __init__(self, spec):
+    self.spec = spec or {}
+    self.count = {}
+    self.halted = 0
+    from pox.lib.revent import EventHalt
+    self.EventHalt = EventHalt
+
+  def decide(self, level, cls):
+    k = "%s:%s" % (level, cls)
+    n = self.count.get(k, 0)
+    self.count[k] = n + 1
+    pat = self.spec.get(k) or []
+    return bool(pat) and bool(pat[n % len(pat)])
+
+  def do(self, e):
+    self.halted += 1
+    style = self.spec.get("style", 0) % 3
+    if style == 0:
+      return self.EventHalt
+    if style == 1:
+      e.halt = True
+      return None
+    return True
 
 
 # =========================================================================== ports
@@ -238,6 +274,17 @@ def case_ports(case, out):
     ref.features(feat)
     for op in ops[:early]:
       ref.status(op[1], op[2])
+    # listeners that (per the case) halt PortStatus / FeaturesReceived: the port view must not depend on them
+    halter = _Halter(case.get("halt"))
+
+    def listener(level, cls):
+      def h(e):
+        if halter.decide(level, cls):
+          return halter.do(e)
+      return h
+    for kind, cls in (("PortStatus", "ps"), ("FeaturesReceived", "feat")):
+      c.w.nexus.addListenerByName(kind, listener("nexus", cls))
+      c.con.addListenerByName(kind, listener("con", cls))
     c.handshake(feat, [(op[1], op[2]) for op in ops[:early]])
     if early:
       out.label("ports:notifications-during-handshake")
@@ -276,6 +323,8 @@ def case_ports(case, out):
       if flag:
         out.label(label)
     out.nontrivial = ref.renamed or ref.readded or ref.hw_changed
+    if halter.halted:
+      out.label("ports:listener-halted-an-event")
     dup_n = len(set(t[2] for t in ref.current.values())) < len(ref.current)
     if dup_n:
       out.label("ports:two-ports-share-a-name")
@@ -371,11 +420,14 @@ def case_stats(case, out):
     for t, k in EVENT_OF.items():
       kind_type[k] = t
 
+    halter = _Halter(case.get("halt"))
+
     def rec(level, kind):
       def h(e):
         if kind == "RawStatsReply":
-          c.log.append((level, kind, c.step, e.ofp.xid, None))
-          return
+          halt = halter.decide(level, "raw")
+          c.log.append((level, kind, c.step, e.ofp.xid, None, halt))
+          return halter.do(e) if halt else None
         t = kind_type[kind]
         parts = e.ofp if isinstance(e.ofp, list) else [e.ofp]
         xids = [p.xid for p in parts]
@@ -385,7 +437,9 @@ def case_stats(case, out):
           tags = [e.stats.mfr_desc]
         else:
           tags = [(e.stats.packet_count, e.stats.byte_count, e.stats.flow_count)]
-        c.log.append((level, kind, c.step, xids, tags))
+        halt = halter.decide(level, "agg")
+        c.log.append((level, kind, c.step, xids, tags, halt))
+        return halter.do(e) if halt else None
       return h
 
     for k in ev_kinds + ["RawStatsReply"]:
@@ -436,20 +490,26 @@ def case_stats(case, out):
                    "tags": [g for part in req["parts"] for g in part]})
     first_exc = min([s for s, e in c.excs], default=None)
 
+    # a listener on the nexus that halts an event keeps it from being raised on the connection (that is
+    # the documented effect, and the only one); what the connection level may then omit:
+    raw_halted_on_nexus = set(step for lv, kind, step, _, _, halt in c.log if lv == "nexus" and kind == "RawStatsReply" and halt)
+    agg_halted_on_nexus = set()
     for level in ("nexus", "con"):
       # ---- RawStatsReply: once per part, nothing else
       raws = {}
-      for lv, kind, step, xid, _ in c.log:
+      for lv, kind, step, xid, _, _ in c.log:
         if lv == level and kind == "RawStatsReply":
           raws.setdefault(step, []).append(xid)
       for step in sorted(set(raws) | set(raw_expected)):
         got = raws.get(step, [])
         want = [raw_expected[step]] if step in raw_expected else []
+        if level == "con" and step in raw_halted_on_nexus and got == []:
+          continue
         if got != want:
           once.fail("raw-stats-reply", "stream item %d: RawStatsReply events on the %s for xids %r, expected %r" % (step, level, got, want), level=level)
       # ---- aggregated events
       fired = {}      # request -> list of (step, kind, tags)
-      for lv, kind, step, xids, tags in c.log:
+      for lv, kind, step, xids, tags, halt in c.log:
         if lv != level or kind == "RawStatsReply":
           continue
         if len(set(xids)) != 1 or xids[0] not in by_xid:
@@ -462,6 +522,8 @@ def case_stats(case, out):
           continue
         r = max(cands, key=lambda q: part_steps[q][0])
         fired.setdefault(r, []).append((step, kind, tags))
+        if level == "nexus" and halt:
+          agg_halted_on_nexus.add(r)
       for r, req in enumerate(reqs):
         t = req["t"]
         inf = info[r]
@@ -490,6 +552,8 @@ def case_stats(case, out):
                 ident, level, step, inf["final_step"]), level=level, when="early" if step < inf["final_step"] else "late")
         if len(evs) > 1:
           once.fail("fired-more-than-once", "%s: %d aggregated events on the %s" % (ident, len(evs), level), level=level, type=t)
+        if level == "con" and r in agg_halted_on_nexus and not evs:
+          continue        # halted on the nexus: need not be raised on the connection
         if inf["complete"] and inf["contiguous"]:
           if after_exc and (not evs or evs[0][2] != all_tags):
             e = [x for s, x in c.excs if s == first_exc][0]
@@ -525,6 +589,14 @@ def case_stats(case, out):
       out.label("stats:xid-reused-by-a-later-request")
     if c.excs:
       out.label("stats:handler-exception")
+    if raw_halted_on_nexus:
+      out.label("stats:raw-event-halted-on-nexus")
+      if any(info[r]["complete"] and part_steps[r][-1] in raw_halted_on_nexus for r in range(len(reqs))):
+        out.label("stats:raw-event-of-final-part-halted-on-nexus")
+    if agg_halted_on_nexus:
+      out.label("stats:aggregated-event-halted-on-nexus")
+    if any(halt for lv, _, _, _, _, halt in c.log if lv == "con"):
+      out.label("stats:event-halted-on-connection")
     out.nontrivial = nt
   finally:
     c.close()
@@ -577,6 +649,13 @@ def enum_ports(tier):
     feat = [_rec(1), _rec(2)]
     for seq in itertools.product(alpha, repeat=5):
       yield {"k": "ports", "feat": feat, "early": 0, "ops": [list(s) for s in seq]}
+  # listeners halting PortStatus / FeaturesReceived on the nexus and/or the connection
+  for init in subsets:
+    feat = [_rec(n) for n in init]
+    for seq in itertools.product(alpha, repeat=2):
+      for halt in ({"nexus:ps": [1]}, {"con:ps": [1]}, {"nexus:ps": [1, 0], "style": 1}, {"nexus:ps": [0, 1], "nexus:feat": [1], "style": 2}):
+        for early in (0, 1):
+          yield {"k": "ports", "feat": feat, "early": early, "ops": [list(s) for s in seq], "halt": halt}
   # notifications that arrive during the handshake, and a second features reply at every position
   for init in subsets:
     feat = [_rec(n) for n in init]
@@ -638,6 +717,24 @@ def enum_stats(tier):
                 if j < k:
                   stream.append(["p", 0])
               yield {"k": "stats", "reqs": [req, req2], "stream": stream}
+  # (a') listeners that halt: every subset of the raw events of a 4-part reply halted on the nexus / on the
+  #      connection, the aggregated event halted on the nexus / connection, each way of halting
+  for t in ("flow", "table", "port", "queue"):
+    for sizes in ([1, 2, 1, 2], [2, 0, 1, 0]):
+      req = {"t": t, "xid": 0x21, "parts": _parts_from_sizes(sizes, 1)}
+      for mask in range(16):
+        pat = [(mask >> i) & 1 for i in range(4)]
+        for lvl in ("nexus", "con"):
+          for agg in ({}, {"nexus:agg": [1]}, {"con:agg": [1]}):
+            for style in (0, 1, 2):
+              if style and mask not in (1, 8, 15):
+                continue
+              halt = {lvl + ":raw": pat, "style": style}
+              halt.update(agg)
+              yield {"k": "stats", "reqs": [req], "stream": [["p", 0]] * 4, "halt": halt}
+  for t, parts in (("desc", [[7]]), ("agg", [[7]])):
+    for halt in ({"nexus:raw": [1]}, {"nexus:agg": [1]}, {"con:raw": [1], "con:agg": [1]}, {"nexus:raw": [1], "nexus:agg": [1], "style": 1}):
+      yield {"k": "stats", "reqs": [{"t": t, "xid": 0x21, "parts": parts}], "stream": [["p", 0]], "halt": halt}
   # (b') a later request reuses the xid (and type) of a finished one
   for t in ("flow", "table", "port", "queue"):
     for sizes in ([2], [1, 1], [0, 2, 0], [1, 2, 3]):
@@ -658,6 +755,22 @@ def enum_stats(tier):
 
 
 # =========================================================================== Hypothesis
+
+@st.composite
+def _s_halt(draw, classes):
+  """listener behaviour: mostly none; otherwise halting patterns per (level, event class)"""
+  if draw(st.integers(0, 2)) == 0:
+    return {}
+  h = {"style": draw(st.integers(0, 2))}
+  for lvl in ("nexus", "con"):
+    for cls in classes:
+      g = draw(st.integers(0, 3 if lvl == "nexus" else 7))
+      if g == 0:
+        h["%s:%s" % (lvl, cls)] = [1]
+      elif g == 1:
+        h["%s:%s" % (lvl, cls)] = draw(st.lists(st.integers(0, 1), min_size=1, max_size=6))
+  return h
+
 
 @st.composite
 def _s_rec(draw, nos=PORT_NOS):
@@ -685,7 +798,7 @@ def _s_ports(draw, tier):
     else:
       ops.append(["ps", draw(st.sampled_from([0, 1, 2, 2])), draw(_s_rec())])
   early = draw(st.sampled_from([0, 0, 0, 1, 2, 3]))
-  return {"k": "ports", "feat": feat, "early": early, "ops": ops}
+  return {"k": "ports", "feat": feat, "early": early, "ops": ops, "halt": draw(_s_halt(["ps", "feat"]))}
 
 
 @st.composite
@@ -741,7 +854,7 @@ def _s_stats(draw, tier):
   n_other = draw(st.integers(0, 4))
   for _ in range(n_other):
     stream.insert(draw(st.integers(0, len(stream))), ["o", draw(st.integers(0, 4))])
-  return {"k": "stats", "reqs": reqs, "stream": stream}
+  return {"k": "stats", "reqs": reqs, "stream": stream, "halt": draw(_s_halt(["raw", "agg"]))}
 
 
 def plan(tier):
